@@ -10,6 +10,9 @@ Stage D  the scan (`rtcmscan`, i.e. Cfg.run cfgRtcm) vs the callbacks of the rea
          Requests `M ...` keep 2-3 framer objects alive in one process and interleave their operations; every framer is
          judged on its own stream exactly like a lone one (model text, scan, direct statements) and against itself run
          alone (signature C14/framer-depends-on-another-instance): framer objects share no state.
+         Requests `L ...` are long runs of one framer object (tens of thousands of frames generated inside the harness from
+         a seed): at every report the number of callbacks, GetNumDecodedMessages(), the sum of OnData() returns and a digest
+         of all callbacks must be what the scan of the same stream (regenerated here, scanned window by window) demands.
 """
 import json
 import os
@@ -503,6 +506,217 @@ def first_diff(a, b):
     return '...' + a[max(0, i - 40):i + 60]
 
 
+# ---- long runs: one framer object, tens of thousands of frames, no Reset (or one in the middle) -------------------
+XS_MUL = 0x2545F4914F6CDD1D
+LONG_WINDOW = 200        # items per report / per scan request (the Lean scan is quadratic in the stream length)
+
+
+def xs_picks(seed, n_alphabet, count):
+    """xorshift64* as in cxx/c14_harness.cc (struct XorShift): the item indices of a long run."""
+    x, out = seed, []
+    for _ in range(count):
+        x ^= x >> 12
+        x ^= (x << 25) & M64
+        x ^= x >> 27
+        out.append((((x * XS_MUL) & M64) >> 32) % n_alphabet)
+    return out
+
+
+def long_cap_bytes(spec, cap):
+    return cap + 3 if spec == 'i' else cap - ((-int(spec[1:])) % 4)
+
+
+def scan_idle(data, scan_out):
+    """True when the scan has judged every byte (nothing but non-preamble bytes after its offset)."""
+    off = int(scan_out.split('|')[2])
+    return 0xD3 not in data[off:]
+
+
+def long_alphabet(ctx, rng, spec, cap):
+    """At most 16 short items (repeats = weights), about 7 of 8 picks a valid frame.  Every item on its own is judged
+    completely by the scan at this capacity (no pending candidate at its end), so that reports can be asked for at any
+    item boundary; items that are not (e.g. a stray preamble when the buffer could hold the 774-byte frame it seems to
+    announce) are left out.  Returns (items, frames the scan accepts in each)."""
+    cb = long_cap_bytes(spec, cap)
+    z = rtcm_frame(b'')
+    valid = [z, rtcm_msg(rng, rng.choice(MSGNUMS), rng.choice([0, 1, 2])), rtcm_msg(rng, rng.choice(MSGNUMS), rng.choice([2, 3, 4])),
+             rtcm_frame(bytes(rng.randrange(256) for _ in range(rng.choice([0, 1, 2]))), reserved=rng.choice([1, 0x3F, 0x20]))]
+    bad = bytearray(rng.choice(valid))
+    bad[-1 - rng.randrange(3)] ^= 1 << rng.randrange(8)
+    hdr = bytearray(rng.choice(valid))
+    hdr[rng.choice([1, 2])] ^= 1 << rng.randrange(8)
+    other = [bytes(bad), bytes(hdr), b'\xd3' + rng.choice(valid), b'\xd3\xd3\xd3' + z, b'\xd3\xff\xff', b'\xd3\xff\xff' + z,
+             bytes(rng.choice([0, 1, 0x55, 0xD2, 0xFF, rng.randrange(256)]) for _ in range(rng.choice([1, 2, 3, 7]))),
+             b'\xd3\x00\x01' + bytes([rng.randrange(0xD3)]) + b'\x00\x00\x00', bytes(bad) + z, z[:rng.randrange(1, 6)] + z]
+    cands = valid + other
+    scans = ctx.driver(['rtcmscan %d %s' % (cb, c.hex()) for c in cands])
+    keep = [(c, len([m for m in sc.split('|')[0].split(',') if m])) for c, sc in zip(cands, scans) if scan_idle(c, sc)]
+    v = [x for x in keep if x[0] in valid and x[1] == 1]
+    o = [x for x in keep if x[0] not in valid]
+    if not v:
+        raise fv.InfraError('no valid minimal frame fits capacity %d' % cb)
+    rng.shuffle(o)
+    o = o[:2]
+    items = o + [v[i % len(v)] for i in range(16 - len(o))]
+    rng.shuffle(items)
+    return [c for c, _ in items], [k for _, k in items]
+
+
+def make_long(ctx, rng, spec, cap, frames, reset_frames=(), marks=()):
+    """A long run that reaches `frames` accepted frames; Reset() after about `reset_frames` frames; reports every
+    LONG_WINDOW items and when the count reaches each of `marks`."""
+    if long_cap_bytes(spec, cap) < 6:
+        cap += 4
+    items, per = long_alphabet(ctx, rng, spec, cap)
+    seed, chunkseed = rng.randrange(1, 1 << 63), rng.randrange(1, 1 << 63)
+    picks = xs_picks(seed, len(items), frames * 2 + 64)
+    cum, total = [0], 0
+    for k in picks:
+        total += per[k]
+        cum.append(total)
+        if total >= frames:
+            break
+    n_items = len(cum) - 1
+    import bisect
+    ev = {n: False for n in range(LONG_WINDOW, n_items, LONG_WINDOW)}
+    ev[n_items] = False
+    for m in marks:
+        if 0 < m <= total:
+            ev.setdefault(bisect.bisect_left(cum, m), False)
+    for m in reset_frames:
+        if 0 < m < total:
+            ev[bisect.bisect_left(cum, m)] = True
+    events = ['%s%d' % ('R' if ev[n] else '', n) for n in sorted(ev) if n > 0]
+    return {'spec': spec, 'capacity': cap, 'seed': seed, 'chunkseed': chunkseed,
+            'maxchunk': rng.choice([1, 5, 6, 7, 64, 300, 4096]), 'events': events, 'items': [c.hex() for c in items]}
+
+
+def long_line(q):
+    return 'L %s %d %d %d %d %s %s' % (q['spec'], q['capacity'], q['seed'], q['chunkseed'], q['maxchunk'], ','.join(q['events']), ':'.join(q['items']))
+
+
+def judge_long(ctx, exe, qs):
+    """Runs the long requests and judges every report against the scan of the generated stream.  The stream is scanned by
+    the Lean specification window by window (one window per report); a window boundary is only used when the scan of the
+    window has judged every byte of it, so the scan of the whole stream is the concatenation of the window scans."""
+    if not qs:
+        return
+    hres = run_harness(exe, [long_line(q) for q in qs])
+    frame_ok, todo = {}, []
+    for q, (ans, rep) in zip(qs, hres):
+        replay = {'long': q, 'tokens': 'long'}
+        line = long_line(q)
+        if rep is not None:
+            ctx.violation('C14/sanitizer-' + sanitizer_kind(rep), 'sanitizer report while running `%s`: %s'
+                          % (line[:60], ' | '.join(x.strip() for x in rep.strip().split('\n')[:4])[:500]), dict(replay, sanitizer_report=rep))
+        if ans is None:
+            continue
+        text, _, extra = ans.partition(' ')
+        if text == 'bad-args':
+            raise fv.InfraError('harness refuses ' + line[:200])
+        if extra != 'ok':
+            ctx.violation('C14/' + extra.split(',')[0], 'harness complaint in a long run: ' + extra, replay)
+        recs = [r.split('|') for r in text.split(';')]
+        st0 = [int(x) for x in recs[0][1:]]
+        cb = long_cap_bytes(q['spec'], q['capacity'])
+        if st0[0] != 1 or (st0[1] != cb and not (q['spec'] == 'i' and q['capacity'] <= st0[1] <= cb)):
+            ctx.violation('C14/capacity-after-construction', 'spec %s capacity %d: buffer=%d capacity_bytes_=%d' % (q['spec'], q['capacity'], st0[0], st0[1]), replay)
+            continue
+        cb = st0[1]
+        items = [bytes.fromhex(x) for x in q['items']]
+        evs = [(e.startswith('R'), int(e.lstrip('R'))) for e in q['events']]
+        if len(recs) != len(evs) + 1:
+            raise fv.InfraError('harness answered %d records for %d events' % (len(recs) - 1, len(evs)))
+        picks = xs_picks(q['seed'], len(items), evs[-1][1])
+        windows, prev = [], 0
+        for _, n in evs:
+            windows.append(b''.join(items[k] for k in picks[prev:n]))
+            prev = n
+        todo.append((q, replay, line, cb, evs, windows, recs))
+    # one driver call for the windows of all runs (the driver spreads request lines over processes)
+    all_scans = ctx.driver(['rtcmscan %d %s' % (cb, w.hex() or '-') for (_, _, _, cb, _, windows, _) in todo for w in windows])
+    pos = 0
+    for (q, replay, line, cb, evs, windows, recs) in todo:
+        scans = all_scans[pos:pos + len(windows)]
+        pos += len(windows)
+        tot = since = lens = 0
+        digest = FNV_OFF
+        fed = 0
+        for (reset, n), w, sc, rec in zip(evs, windows, scans, recs[1:]):
+            if not scan_idle(w, sc):
+                raise fv.InfraError('long run: the scan has a pending candidate at an item boundary (item %d)' % n)
+            for m in sc.split('|')[0].split(','):
+                if not m:
+                    continue
+                o, ln, t, h = (int(x) for x in m.split(':'))
+                fr = w[o:o + ln]
+                if fr not in frame_ok:
+                    frame_ok[fr] = (fnv64(fr), fr[0] == 0xD3 and ((fr[1] & 3) << 8 | fr[2]) + 6 == ln == len(fr)
+                                    and crc24q(fr[:-3]) == int.from_bytes(fr[-3:], 'big'))
+                if frame_ok[fr] != (h, True) or ln > cb or (ln >= 5 and t != ((fr[3] << 8 | fr[4]) >> 4)):
+                    raise fv.InfraError('the scan accepted something that is not a CRC-valid frame (long run)')
+                for x in (t, ln, h):
+                    digest = ((digest ^ x) * FNV_PRIME) & M64
+                tot += 1
+                since += 1
+                lens += ln
+            fed += len(w)
+            if reset:
+                since = 0
+            g = [int(x) for x in rec[1:]]
+            g_items, g_cbs, g_since, g_ret, g_len, g_digest, st = g[0], g[1], g[2], g[3], g[4], g[5], g[6:]
+            where = 'after %d items (%d bytes, pieces of 1..%d bytes, capacity_bytes_=%d%s)' % (n, fed, q['maxchunk'], cb, ', Reset() just called' if reset else '')
+            rp = dict(replay, event=('R' if reset else '') + str(n))
+            if rec[0] != ('R' if reset else 'K') or g_items != n:
+                raise fv.InfraError('long run: report %s for event %s%d' % (rec[:2], 'R' if reset else '', n))
+            if g_cbs != tot or g_digest != digest or g_len != lens:
+                kind = 'missing-frame' if g_cbs < tot else 'extra-frame' if g_cbs > tot else 'different-frames'
+                ctx.violation('C14/callbacks-differ-from-scan/' + kind,
+                              'long run %s: %d callbacks (lengths sum %d, digest %d); the scan accepts %d frames (lengths sum %d, digest %d)'
+                              % (where, g_cbs, g_len, g_digest, tot, lens, digest), rp)
+                break
+            if g_ret != lens:
+                ctx.violation('C14/return-value', 'long run %s: OnData() returns sum to %d, dispatched sizes sum to %d' % (where, g_ret, lens), rp)
+                break
+            if g_since != since:
+                raise fv.InfraError('long run: harness counts %d callbacks since Reset, expected %d' % (g_since, since))
+            if st[5] != since % (1 << 32):
+                ctx.violation('C14/decoded-count', 'long run %s: GetNumDecodedMessages() = %d after %d callbacks since %s (%d frames accepted by the scan)'
+                              % (where, st[5], g_since, 'Reset' if since != tot or reset else 'construction', since), rp)
+                break
+            if st[3] != 0 or st[2] != 0:
+                ctx.violation('C14/pending-bytes', 'long run %s: framer holds %d bytes in state %d, the scan has judged every byte' % (where, st[3], st[2]), rp)
+                break
+            if st[3] > st[1]:
+                ctx.violation('C14/next-index-beyond-capacity', 'next_byte_index_ %d capacity %d' % (st[3], st[1]), rp)
+                break
+        else:
+            ctx.cov['traces_validated_against_impl'] += 1
+        ctx.case(line, nontrivial=tot > 0)
+        ctx.count('callbacks', tot)
+        ctx.count('long_run_frames', tot)
+        ctx.count('long_runs')
+        if any(r for r, _ in evs):
+            ctx.count('long_runs_with_reset')
+
+
+def long_runs(ctx, exe, rng, thorough):
+    P16 = 1 << 16
+    marks = [1, 255, 256, 257, (1 << 15) - 1, 1 << 15, (1 << 15) + 1, P16 - 1, P16, P16 + 1, P16 + 256, (1 << 17) - 1, 1 << 17, (1 << 17) + 1]
+    caps = [6, 7, 9, 12, 13, 16, 25, 31, 64, 100, 300, 520, 700]
+    qs = [make_long(ctx, rng, pick_spec(rng), rng.choice(caps), 70000, marks=marks),
+          # Reset() in the middle: the count restarts and is the number of callbacks since then
+          make_long(ctx, rng, pick_spec(rng), rng.choice(caps), 70000 + 36000, reset_frames=[rng.choice([36000, 34000 + rng.randrange(2000)])], marks=marks)]
+    if thorough:
+        qs.append(make_long(ctx, rng, 'i', 1029, (1 << 17) + 3000, marks=marks))
+        qs.append(make_long(ctx, rng, pick_spec(rng), rng.choice(caps), (1 << 17) + 70000, reset_frames=[P16 + rng.randrange(5), (1 << 17) + 10], marks=marks))
+        for _ in range(4):
+            qs.append(make_long(ctx, rng, pick_spec(rng), rng.choice(caps + [1029, 2048]), rng.choice([P16 + 300, 70000, (1 << 17) + 300]),
+                                reset_frames=rng.choice([[], [rng.randrange(1, P16)], [P16, P16 + 1]]), marks=marks))
+    judge_long(ctx, exe, qs)
+    return qs
+
+
 # ---- case generation -------------------------------------------------------------------------------------------------
 def table_check(ctx):
     """The literal table of the source against this file's own polynomial computation (concrete witness for a
@@ -578,6 +792,13 @@ def run(ctx, budget):
             j.add_multi([(s1, c1, o1), (s2, c2, o2)], alt, 'alternating')
             j.add_multi([(s1, c1, o1), (s2, c2, o2), ('u2', 31, o1)], interleave(rng, [len(o1), len(o2), len(o1)]), 'alternating3')
     j.run(exe)
+    # long histories of one framer object (counters, state after tens of thousands of frames)
+    for q in long_runs(ctx, exe, rng, ctx.thorough):
+        # the first items of each long stream also go through the ordinary path (literal model text per call + scan)
+        items = [bytes.fromhex(x) for x in q['items']]
+        pre = b''.join(items[k] for k in xs_picks(q['seed'], len(items), 300))
+        k = rng.choice([1, 5, 7, 64])
+        j.add(q['spec'], q['capacity'], [pre[i:i + k].hex() for i in range(0, len(pre), k)], 'long-prefix')
     # random streams
     for it in range(budget):
         if it % 4 == 0:
@@ -618,6 +839,11 @@ def check(ctx):
                        'Reset()/SetBuffer()/WarnOnError() at random points; + 2-3 framer objects alive in one process (different '
                        'streams, capacities, buffer kinds), their operations interleaved (strict alternation and random runs of 1-3 '
                        'operations; divisions bytewise / small blocks), each judged as if alone and compared with itself run alone; '
+                       '+ long runs of ONE framer object: 70 000 (thorough: up to 2^17 + 70 000) accepted frames without Reset() and with '
+                       'Reset() in the middle, stream generated inside the harness from a seed (16 short items: minimal valid frames, '
+                       'CRC failures, stray preambles, junk), fed in pieces of 1..k bytes, reports every 200 items and where the count '
+                       'reaches 2^8, 2^15, 2^16, 2^17 (+-1): callbacks so far / GetNumDecodedMessages() / sum of OnData() returns / '
+                       'digest of all callbacks vs the Lean scan of the same stream; '
                        'real framer under ASan/UBSan vs literal Lean model (text of '
                        'callbacks, return, private state per call) vs the scan Cfg.run cfgRtcm; non-trivial = a callback or an error '
                        'counted; distinct = distinct request line')
@@ -626,6 +852,8 @@ def check(ctx):
         'operator new returns 4-byte aligned memory (so capacity_bytes_ of an internal buffer is the requested capacity + 3)',
         'a callback is installed and does not re-enter the framer',
         'fewer than 2^32 dispatches between Resets matter only modulo 2^32 (the counter is uint32_t; the theorem is stated modulo 2^32)',
+        'long runs: the scan of the whole stream is taken to be the concatenation of the scans of its windows (a window ends only where '
+        'the scan has judged every byte of it; each window is scanned by the Lean specification)',
         'table-driven CRC-24Q with the polynomial-derived table is taken as the definition of CRC-24Q; it is compared with a bit-serial '
         'Python implementation on the generated inputs']
     table_check(ctx)
@@ -644,7 +872,9 @@ def replay(ctx, path):
     exe = compile_harness(ctx)
     table_check(ctx)
     j = Judge(ctx)
-    if r.get('multi'):
+    if r.get('long'):
+        judge_long(ctx, exe, [r['long']])
+    elif r.get('multi'):
         m = r['multi']
         j.add_multi([(q['spec'], q['capacity'], q['ops']) for q in m['parts']], m['sched'], r.get('tokens', ''))
     else:
